@@ -43,7 +43,7 @@ def check(run):
     counts = {}
     for d in sorted(U):
         b = prog.bodies[d]
-        if b.rec.get("derived"):
+        if b.generated:
             continue
         for s in panics.sites(b, prog, include_overflow=True):
             if s.kind == "assert" and s.what.startswith("Overflow"):
